@@ -600,7 +600,7 @@ impl CaseRec {
 }
 
 /// One generated program: correspondence line + all oracles.
-fn one(out: &mut CaseRec, real: &mut Real, e: &E, style: u32, rng: &mut gv::rng::Rng, replaying: bool) {
+fn one(out: &mut CaseRec, real: &mut Real, e: &E, style: u32, rng: &mut gv::rng::Rng, replaying: bool, meta: bool) {
     let src = program(e, style);
     let v = real.check(&src);
     let first_err = real.last_err.clone();
@@ -680,7 +680,7 @@ fn one(out: &mut CaseRec, real: &mut Real, e: &E, style: u32, rng: &mut gv::rng:
     }
 
     // ---- oracle 2: metamorphic transformations on the real checker -------------------------
-    if let Verdict::Ok(_) | Verdict::Err = v {
+    if let (true, Verdict::Ok(_) | Verdict::Err) = (meta, &v) {
         // (a) alpha renaming
         let mut k = 0;
         let ea = alpha(e, &mut vec![], &mut k);
@@ -867,6 +867,103 @@ fn enumerate(size: usize, scope: &mut Vec<String>, out: &mut Vec<E>) {
     }
 }
 
+/// Targeted family "generalisation under a binder":
+/// `\f [h] -> let g = \a [b] -> [let y = … in] C[f, h, a, b, y] in D[g]`.
+/// `C` applies an outer parameter to (or joins it with) an inner parameter wrapped in tuples /
+/// nested tuples / records / arrays / lambdas / the result of an earlier application; `D` uses
+/// `g` at one or two types.  The inner `let` must not generalise what is reachable from the outer
+/// parameters (level adjustment when a variable is bound: substitution.rs `occurs` /
+/// `update_level`; generalize.rs:80).
+fn family() -> Vec<E> {
+    let v = |s: &str| E::Var(s.to_string());
+    let bx = |e: E| Box::new(e);
+    let lam = |x: &str, b: E| E::Lam(x.to_string(), Box::new(b));
+    let app = |f: E, a: E| E::App(Box::new(f), Box::new(a));
+    let let_ = |x: &str, a: E, b: E| E::Let(x.to_string(), Box::new(a), Box::new(b));
+    let wraps = |x: &E| -> Vec<E> {
+        vec![
+            x.clone(),
+            E::Tup(vec![x.clone(), E::Int(1)]),
+            E::Tup(vec![E::Int(0), x.clone()]),
+            E::Tup(vec![E::Tup(vec![x.clone(), E::Int(1)]), E::Str("s".into())]),
+            E::Rec(vec![("x".into(), x.clone())]),
+            E::Rec(vec![("y".into(), E::Int(1)), ("x".into(), x.clone())]),
+            E::Arr(vec![x.clone()]),
+            lam("z", x.clone()),
+            E::Tup(vec![x.clone(), x.clone()]),
+        ]
+    };
+    let ds = |g: E| -> Vec<E> {
+        vec![
+            g.clone(),
+            app(g.clone(), E::Int(1)),
+            E::Tup(vec![app(g.clone(), E::Int(1)), app(g.clone(), E::Str("s".into()))]),
+            E::Arr(vec![app(g.clone(), E::Int(1)), app(g.clone(), E::Int(2))]),
+            app(g.clone(), g.clone()),
+            E::Tup(vec![app(g.clone(), lam("i", E::Str("s".into()))), app(g.clone(), lam("i", E::Int(1)))]),
+        ]
+    };
+    let mut out = vec![];
+    for two_outer in [false, true] {
+        for two_inner in [false, true] {
+            // the optional earlier application inside `g`
+            let mut pres: Vec<Option<E>> = vec![None, Some(app(v("a"), E::Int(1)))];
+            if !two_inner {
+                pres.push(Some(app(v("f"), E::Int(1))));
+                pres.push(Some(app(v("f"), v("a"))));
+            }
+            if two_outer && two_inner {
+                pres.truncate(1);
+            }
+            for pre in pres {
+                // `let y = f a in … f (a, 1)` asks for the infinite type a = (a, Int): the real
+                // checker overflows its stack on it (see notes) — with that `pre` only `y` is used
+                let pre_fa = pre == Some(app(v("f"), v("a")));
+                let mut atoms = if pre_fa { vec![] } else { vec![v("a")] };
+                if two_inner {
+                    atoms.push(v("b"));
+                    atoms.push(E::Tup(vec![v("a"), v("b")]));
+                }
+                if pre.is_some() {
+                    atoms.push(v("y"));
+                }
+                for atom in &atoms {
+                    for w in wraps(atom) {
+                        let mut cs = vec![
+                            app(v("f"), w.clone()),
+                            E::Arr(vec![v("f"), w.clone()]),
+                            E::If(bx(E::Lt(bx(E::Int(1)), bx(E::Int(2)))), bx(v("f")), bx(w.clone())),
+                            lam("z", app(v("f"), w.clone())),
+                        ];
+                        if two_outer {
+                            cs.push(app(v("h"), app(v("f"), w.clone())));
+                            cs.push(E::Tup(vec![app(v("f"), w.clone()), app(v("h"), w.clone())]));
+                        }
+                        for c in cs {
+                            let mut body = c;
+                            if let Some(p) = &pre {
+                                body = let_("y", p.clone(), body);
+                            }
+                            if two_inner {
+                                body = lam("b", body);
+                            }
+                            let gdef = lam("a", body);
+                            for d in ds(v("g")) {
+                                let mut e = let_("g", gdef.clone(), d);
+                                if two_outer {
+                                    e = lam("h", e);
+                                }
+                                out.push(lam("f", e));
+                            }
+                        }
+                    }
+                }
+            }
+        }
+    }
+    out
+}
+
 fn corpus() -> Vec<E> {
     // hand-written regression shapes (let-polymorphism × rows nestings; the row-tail witnesses)
     let v = |s: &str| Box::new(E::Var(s.to_string()));
@@ -940,7 +1037,7 @@ fn main2() {
             Some(e) => {
                 let mut rec = CaseRec::default();
                 let mut rng = gv::rng::Rng::new(args.seed, 1000);
-                one(&mut rec, &mut Real::new(), &e, style, &mut rng, true);
+                one(&mut rec, &mut Real::new(), &e, style, &mut rng, true, true);
                 for o in &rec.oracle {
                     println!("oracle: {} — {}", o["fingerprint"], o["what"]);
                 }
@@ -953,9 +1050,15 @@ fn main2() {
     }
     // The whole case stream is a pure function of (tier, seed): the parent and every child
     // build the same list; a child processes an index range.
-    let mut cases: Vec<(E, u32)> = vec![];
+    let mut cases: Vec<(E, u32, bool)> = vec![];
     for e in corpus() {
-        cases.push((e, 0));
+        cases.push((e, 0, true));
+    }
+    // targeted family, exhaustive in both tiers (correspondence + algorithm-W oracle only)
+    let fam = family();
+    let n_fam = fam.len() as u64;
+    for e in fam {
+        cases.push((e, 0, false));
     }
     let max = if args.thorough() { 5 } else { 4 };
     let mut n_exh = 0u64;
@@ -964,7 +1067,7 @@ fn main2() {
         enumerate(size, &mut vec![], &mut v);
         for e in v {
             n_exh += 1;
-            cases.push((e, (n_exh % 4) as u32));
+            cases.push((e, (n_exh % 4) as u32, true));
         }
     }
     let n_rand = if args.thorough() { 15000 } else { 2000 };
@@ -978,7 +1081,7 @@ fn main2() {
             too_large += 1;
             continue;
         }
-        cases.push((e, style));
+        cases.push((e, style, true));
     }
     if let Some(p) = args.extra.iter().position(|a| a == "--child") {
         // child: process cases[lo..hi), one JSON line per case, `START i` before each
@@ -996,7 +1099,7 @@ fn main2() {
             let mut rec = CaseRec::default();
             rec.idx = i as u64;
             let mut rng = gv::rng::Rng::new(args.seed, 1000 + i as u64);
-            one(&mut rec, &mut real, &cases[i].0, cases[i].1, &mut rng, false);
+            one(&mut rec, &mut real, &cases[i].0, cases[i].1, &mut rng, false, cases[i].2);
             let mut l = so.lock();
             writeln!(l, "CASE {}", rec.to_json()).unwrap();
             l.flush().unwrap();
@@ -1006,6 +1109,7 @@ fn main2() {
     let mut out = Out::new(&args.out);
     out.stats.insert("exhaustive_up_to_size".into(), (max as u64).into());
     out.stats.insert("exhaustive_terms".into(), n_exh.into());
+    out.stats.insert("family_generalisation_under_binder".into(), n_fam.into());
     out.add("skipped:too-large", too_large);
     let seed_s = args.seed.to_string();
     let mut lo = 0usize;
@@ -1040,7 +1144,7 @@ fn main2() {
         } else {
             // the checker took the process down (stack overflow / abort / hang) on case `started`
             let k = started.unwrap_or(done);
-            let (e, style) = &cases[k.min(cases.len() - 1)];
+            let (e, style, _) = &cases[k.min(cases.len() - 1)];
             let src = program(e, *style);
             let w = refw::infer_program(e);
             out.count(&format!("checker-crash:{}", ex.class()));
